@@ -208,6 +208,7 @@ def run_check(mod: Any, tier: str, seed: int, jobs: int = 16) -> int:
                     unlisted.append(v)
 
     # 3. generated search, sharded
+    os.environ['VF_TIER'] = tier      # read by vf.core.hyp for the default per-shard wall-clock allowance
     specs = mod.shards(tier)
     tasks = [(mod.__name__, spec, seed * 1000 + i) for i, spec in enumerate(specs)]
     ctx = multiprocessing.get_context('fork')
